@@ -25,6 +25,7 @@ package c05
 import (
 	"fmt"
 	"math"
+	"regexp"
 	"math/rand"
 	"net/url"
 	"strconv"
@@ -61,6 +62,9 @@ func programFormat() px.FormatContext {
 func hx(s string) string { return sx.Str(s).Atom }
 
 func exec(c px.Context, op string, args []sx.Sexp) core.Result {
+	if len(args) == 0 {
+		return core.Result{Out: "bad-op", Pred: "FAIL harness-bad-op " + op}
+	}
 	defineTypes(c)
 	switch op {
 	case "quote", "rxquote":
@@ -88,6 +92,9 @@ func exec(c px.Context, op string, args []sx.Sexp) core.Result {
 		}
 		return rtValue(c, op, types.WrapString(string(s)), needsEscape(string(s)), "")
 	case "rt-rx":
+		if len(args) != 3 {
+			break
+		}
 		s, err := args[0].AsBytes()
 		if err != nil {
 			break
@@ -110,6 +117,9 @@ func exec(c px.Context, op string, args []sx.Sexp) core.Result {
 		}
 		return rtValue(c, op, v, args[0].IsList && len(args[0].List) > 2, valClass(args[0]))
 	case "rt-type":
+		if len(args) != 2 {
+			break
+		}
 		s, err := args[0].AsBytes()
 		if err != nil {
 			break
@@ -685,6 +695,15 @@ func pre(xs []string) string {
 	return s
 }
 
+// rxOp renders the rt-rx op line: the source, whether regexp.Compile accepts it, and the compile oracle for the literal
+// the implementation prints for it (both computed here, when the line is generated)
+func rxOp(s string) string {
+	_, err := regexp.Compile(s)
+	var buf bytes.Buffer
+	utils.RegexpQuote(&buf, s)
+	return "rt-rx " + hx(s) + " " + sx.B(err == nil) + " " + syn.OracleSexp(buf.String())
+}
+
 func gen(g *core.G) {
 	// exhaustive: every string of length <= 2 (quick) / <= 3 (thorough) over the hostile alphabet, as a string and as a quote op
 	alpha := syn.HostileAlphabet
@@ -710,7 +729,7 @@ func gen(g *core.G) {
 		g.Emit("rxquote " + hx(s))
 	}
 	for _, s := range rxSources {
-		g.Emit("rt-rx " + hx(s))
+		g.Emit(rxOp(s))
 		g.Emit("rxquote " + hx(s))
 	}
 	for _, i := range syn.BoundaryInts {
@@ -722,32 +741,32 @@ func gen(g *core.G) {
 		}
 	}
 	for _, f := range floats {
-		g.Emit("rt-val " + floatSexp(f))
+		g.Emit("@rt-val " + floatSexp(f))
 	}
 	// seed type expressions and every core type name
 	for _, e := range syn.SeedExprs {
-		g.Emit("rt-type " + hx(e) + " " + syn.OracleSexp(e))
+		g.Emit("@rt-type " + hx(e) + " " + syn.OracleSexp(e))
 	}
 	for _, tn := range syn.TypeNames {
-		g.Emit("rt-type " + hx(tn) + " ()")
+		g.Emit("@rt-type " + hx(tn) + " ()")
 		for _, a := range syn.ArgReps {
 			t := tn + "[" + a + "]"
-			g.Emit("rt-type " + hx(t) + " " + syn.OracleSexp(t))
+			g.Emit("@rt-type " + hx(t) + " " + syn.OracleSexp(t))
 			for _, b := range syn.ArgReps {
 				t := tn + "[" + a + ", " + b + "]"
-				g.Emit("rt-type " + hx(t) + " " + syn.OracleSexp(t))
+				g.Emit("@rt-type " + hx(t) + " " + syn.OracleSexp(t))
 			}
 		}
 	}
 	// random types from the grammar of all core constructors
 	for i := 0; i < 6000*g.Scale; i++ {
 		t := syn.GenTypeText(g.Rng, 1+g.Rng.Intn(3))
-		g.Emit("rt-type " + hx(t) + " " + syn.OracleSexp(t))
+		g.Emit("@rt-type " + hx(t) + " " + syn.OracleSexp(t))
 	}
 	// random literal values; inferred types of values
 	for i := 0; i < 6000*g.Scale; i++ {
 		v := genVal(g.Rng, g.Rng.Intn(4), false)
-		g.Emit("rt-val " + v)
+		g.Emit("@rt-val " + v)
 		if i%3 == 0 {
 			g.Emit("@rt-typeof " + v)
 		}
@@ -755,7 +774,7 @@ func gen(g *core.G) {
 	for i := 0; i < 1500*g.Scale; i++ {
 		s := syn.GenString(g.Rng) + syn.GenString(g.Rng)
 		g.Emit("rt-str " + hx(s))
-		g.Emit("rt-rx " + hx(s))
+		g.Emit(rxOp(s))
 		g.Emit("rt-int " + strconv.FormatInt(int64(g.Rng.Uint64()), 10))
 	}
 }
